@@ -105,9 +105,117 @@ where
     }
 }
 
+/// Reference decision for systems too large for brute force: Gaussian elimination on bitset rows,
+/// one constant word per row (all bit planes at once: a row that reduces to 0 = c with c != 0 is a contradiction).
+fn ref_solvable(num_vars: usize, sys: &[(Vec<u32>, usize)]) -> bool {
+    let words = num_vars.div_ceil(64).max(1);
+    let mut rows: Vec<(Vec<u64>, usize)> = sys
+        .iter()
+        .map(|(vars, c)| {
+            let mut b = vec![0u64; words];
+            for &v in vars {
+                b[v as usize / 64] ^= 1 << (v % 64);
+            }
+            (b, *c)
+        })
+        .collect();
+    let mut r = 0;
+    for col in 0..num_vars {
+        if r == rows.len() {
+            break;
+        }
+        if let Some(p) = (r..rows.len()).find(|&i| rows[i].0[col / 64] >> (col % 64) & 1 == 1) {
+            rows.swap(r, p);
+            let (pb, pc) = rows[r].clone();
+            for (i, row) in rows.iter_mut().enumerate() {
+                if i != r && row.0[col / 64] >> (col % 64) & 1 == 1 {
+                    for (x, y) in row.0.iter_mut().zip(&pb) {
+                        *x ^= y;
+                    }
+                    row.1 ^= pc;
+                }
+            }
+            r += 1;
+        }
+    }
+    rows.iter().all(|(b, c)| b.iter().any(|&w| w != 0) || *c == 0)
+}
+
+/// Systems with very wide equations (counters of the lazy solver that must not be narrower than the
+/// number of variables of an equation: widths around 2^8 and 2^16).
+fn wide_systems(ctx: &mut Ctx, thorough: bool) {
+    let mut widths: Vec<usize> = vec![1, 2, 3, 254, 255, 256, 257, 258, 300, 511, 512, 513, 1000];
+    if thorough {
+        widths.extend([65_535, 65_536, 65_537, 70_000]);
+    } else {
+        widths.extend([65_536, 65_537]);
+    }
+    let eq = |start: usize, width: usize, step: usize| -> Vec<u32> { (0..width).map(|i| (start + i * step) as u32).collect() };
+    for (ia, &wa) in widths.iter().enumerate() {
+        for &wb in &widths[ia..] {
+            if !ctx.case(|| format!("gf2 wide equations: widths {wa} and {wb} (+ a third short one), all offset / constant combinations")) {
+                continue;
+            }
+            ctx.nontrivial();
+            let num_vars = 2 * (wa + wb) + 8;
+            for (sa, sb, step_b) in [(0usize, 0usize, 1usize), (0, wa / 2, 1), (3, 0, 2), (0, wa.saturating_sub(1), 1)] {
+                for consts in 0..16usize {
+                    for third in [None, Some(vec![0u32, 1]), Some(vec![(sb + (wb - 1) * step_b) as u32]), Some(eq(sa, wa, 1))] {
+                        let mut sys: Vec<(Vec<u32>, usize)> = vec![(eq(sa, wa, 1), consts & 3), (eq(sb, wb, step_b), consts >> 2)];
+                        if let Some(t) = third {
+                            sys.push((t, (consts ^ (consts >> 1)) & 3));
+                        }
+                        ctx.sub_evaluations += 1;
+                        ctx.nontrivial_extra += 1;
+                        let solvable = ref_solvable(num_vars, &sys);
+                        for lazy in [false, true] {
+                            let mk = || {
+                                let mut s = Modulo2System::<usize>::new(num_vars);
+                                for (vars, c) in &sys {
+                                    s.push(unsafe { Modulo2Equation::from_parts(vars.clone(), *c) });
+                                }
+                                s
+                            };
+                            let name = if lazy { "lazy_gaussian_elimination" } else { "gaussian_elimination" };
+                            let r = guard(|| {
+                                let mut s = mk();
+                                if lazy {
+                                    s.lazy_gaussian_elimination()
+                                } else {
+                                    s.gaussian_elimination()
+                                }
+                            });
+                            let desc = format!("equations of {} variables (start {sa}) and {} variables (start {sb}, step {step_b}){}, constants {:?}", wa, wb, if sys.len() > 2 { format!(" and {} variables", sys[2].0.len()) } else { String::new() }, sys.iter().map(|e| e.1).collect::<Vec<_>>());
+                            match r {
+                                Outcome::Panic(m) => ctx.violation(&format!("C19|Modulo2System::{name}|panic"), format!("{desc}: {m}")),
+                                Outcome::Ret(Ok(sol)) => {
+                                    let own = sol.len() == num_vars && sys.iter().all(|(vars, c)| vars.iter().fold(0usize, |x, &i| x ^ sol[i as usize]) == *c);
+                                    if !solvable {
+                                        ctx.violation(&format!("C19|Modulo2System::{name}|ok-on-unsolvable"), desc);
+                                    } else if !own {
+                                        ctx.violation(&format!("C19|Modulo2System::{name}|bad-solution"), desc);
+                                    } else if !guard(|| mk().check(&sol)).ok().unwrap_or(false) {
+                                        ctx.violation(&format!("C19|Modulo2System::{name}|check-rejects-valid-solution"), desc);
+                                    }
+                                }
+                                Outcome::Ret(Err(_)) => {
+                                    if solvable {
+                                        ctx.violation(&format!("C19|Modulo2System::{name}|err-on-solvable"), desc);
+                                    }
+                                }
+                            }
+                        }
+                    }
+                }
+            }
+        }
+    }
+}
+
 fn main() {
     let mut ctx = Ctx::from_args();
     start_watchdog(120);
+    let t = ctx.thorough();
     // (v, emax, cbits)
     let mut spaces: Vec<(usize, usize, u32)> = vec![(1, 4, 2), (2, 4, 2), (3, 4, 2), (4, 3, 2), (4, 4, 1), (5, 3, 1), (4, 4, 2), (6, 3, 1)];
     if ctx.thorough() {
@@ -121,5 +229,6 @@ fn main() {
             run_space::<u8>(&mut ctx, "u8", v, e, c);
         }
     }
+    wide_systems(&mut ctx, t);
     ctx.finish();
 }
